@@ -27,14 +27,17 @@ func init() { register(watchStream{}) }
 func (watchStream) Name() string          { return "watch" }
 func (watchStream) TrivialTags() []string { return nil }
 
-const watchRoot = "/tmp/cdi-verif-watch"
+// per-process scratch root: concurrent runs of the harness must not share a tree
+var watchRoot = scratchRoot("/tmp/cdi-verif-watch")
 
 // file-system operations of a history (each applies to the single configured directory D)
 var watchOps = []string{"writeInPlace", "writeViaTemp", "rewrite", "unlink", "renameAway", "moveIn", "linkIn", "creatEmpty",
 	"tempFile", "rmdir", "mkdir", "lock", "unlock", "pause", "moveInOld", "linkInOld"}
 
-func specBytes(tag string, n int) []byte {
-	s := &specs.Spec{Version: specs.CurrentVersion, Kind: "vendor.com/class"}
+func specBytes(tag string, n int) []byte { return specBytesOf("vendor.com/class", tag, n) }
+
+func specBytesOf(kind, tag string, n int) []byte {
+	s := &specs.Spec{Version: specs.CurrentVersion, Kind: kind}
 	for i := 0; i < n; i++ {
 		s.Devices = append(s.Devices, specs.Device{Name: fmt.Sprintf("dev%d", i), ContainerEdits: specs.ContainerEdits{Env: []string{"TAG=" + tag}}})
 	}
@@ -69,6 +72,51 @@ func (watchStream) Generate(rng *rand.Rand, tier string, emit func(Case)) {
 				emit(Case{"op": "history", "ops": strs2any(h), "dirAtStart": start, "pacing": pacing})
 			}
 		}
+	}
+	// several configured directories: operations are tagged with the directory they act on ("op@i")
+	multiFixed := [][]string{
+		{"moveIn@1"}, {"writeInPlace@0", "writeInPlace@1", "rewrite@0"},
+		{"rmdir@0", "pause", "writeInPlace@1", "mkdir@0", "moveIn@0"},
+		{"lock", "rmdir@1", "mkdir@1", "writeInPlace@1", "unlock", "pause", "rmdir@1", "writeInPlace@0"},
+		{"lock", "rmdir@0", "mkdir@0", "writeInPlace@0", "unlock", "pause", "rewrite@0"},
+		{"rmdir@0", "rmdir@1", "pause", "mkdir@1", "pause", "writeViaTemp@1", "mkdir@0", "linkInOld@0"},
+	}
+	for _, h := range multiFixed {
+		for _, pacing := range []string{"burst", "sleep"} {
+			emit(Case{"op": "history", "ops": strs2any(h), "dirAtStart": true, "pacing": pacing, "ndirs": 2})
+		}
+	}
+	nm := 12
+	if tier == "thorough" {
+		nm = 300
+	}
+	for i := 0; i < nm; i++ {
+		nd := 2 + rng.Intn(2)
+		var h []string
+		locked := false
+		for k := 2 + rng.Intn(10); k > 0; k-- {
+			o := watchOps[rng.Intn(len(watchOps))]
+			switch o {
+			case "lock":
+				if locked {
+					continue
+				}
+				locked = true
+			case "unlock":
+				if !locked {
+					continue
+				}
+				locked = false
+			case "pause":
+			default:
+				o = fmt.Sprintf("%s@%d", o, rng.Intn(nd))
+			}
+			h = append(h, o)
+		}
+		if locked {
+			h = append(h, "unlock")
+		}
+		emit(Case{"op": "history", "ops": strs2any(h), "dirAtStart": rng.Intn(3) > 0, "pacing": []string{"burst", "yield", "sleep"}[rng.Intn(3)], "ndirs": nd})
 	}
 	n := 25
 	if tier == "thorough" {
@@ -113,6 +161,11 @@ func strs2any(l []string) []any {
 
 // doFsOp performs one operation on directory d; returns false if it was not applicable.
 func doFsOp(op, d, outside string, counter *int) bool {
+	return doFsOpKind("vendor.com/class", op, d, outside, counter)
+}
+
+func doFsOpKind(kind, op, d, outside string, counter *int) bool {
+	specBytes := func(tag string, n int) []byte { return specBytesOf(kind, tag, n) }
 	target := filepath.Join(d, "spec.json")
 	*counter++
 	tag := fmt.Sprintf("v%d", *counter)
@@ -278,10 +331,17 @@ func (watchStream) Execute(c Case) {
 		}
 		obs["events"] = evs
 	case "history":
-		if start, _ := c["dirAtStart"].(bool); start {
-			_ = os.MkdirAll(d, 0o755)
+		nd := kindIdx(c["ndirs"])
+		dirs := []string{d}
+		for i := 1; i < nd; i++ {
+			dirs = append(dirs, filepath.Join(watchRoot, fmt.Sprintf("cdi%d", i)))
 		}
-		cache, _ := cdi.NewCache(cdi.WithSpecDirs(d), cdi.WithAutoRefresh(true))
+		if start, _ := c["dirAtStart"].(bool); start {
+			for _, dd := range dirs {
+				_ = os.MkdirAll(dd, 0o755)
+			}
+		}
+		cache, _ := cdi.NewCache(cdi.WithSpecDirs(dirs...), cdi.WithAutoRefresh(true))
 		defer func() { _ = cache.Configure(cdi.WithAutoRefresh(false)) }()
 		pacing, _ := c["pacing"].(string)
 		ops, _ := c["ops"].([]any)
@@ -330,7 +390,7 @@ func (watchStream) Execute(c Case) {
 		}
 		c["applied"] = applied
 		// the history has ended: poll queries until they agree with a fresh cache (or the deadline passes)
-		fresh, _ := cdi.NewCache(cdi.WithSpecDirs(d), cdi.WithAutoRefresh(false))
+		fresh, _ := cdi.NewCache(cdi.WithSpecDirs(dirs...), cdi.WithAutoRefresh(false))
 		want := cacheImage(fresh)
 		deadline := time.Now().Add(8 * time.Second)
 		converged := false
